@@ -3,7 +3,7 @@ import random
 
 from pyvc.core import And, Eq, Implies, Ite, Not, Or
 from pyvc.strings import mk
-from pyvc.unit import unit
+from pyvc.unit import bare, unit
 from specs import axmlwriter as W
 
 APKF = "androguard/core/apk/__init__.py"
@@ -28,7 +28,7 @@ META = {
 
 
 def _apk(m, pkg="com.x"):
-    a = object.__new__(m.APK)
+    a = bare(m.APK)
     a.package = pkg
     return a
 
@@ -183,7 +183,7 @@ def _serialise(mo, rng):
 
 
 def _fresh_apk(m, data):
-    a = object.__new__(m.APK)
+    a = bare(m.APK)
     a.filename = "x.apk"
     a.xml, a.axml, a.arsc = {}, {}, {}
     a.package, a.androidversion, a.permissions, a.uses_permissions, a.declared_permissions = "", {}, [], [], {}
